@@ -21,7 +21,7 @@ from vf.common import Ctx, Failure, Stats, drive, run_sharded, scratch_dir
 PROP = "C10"
 LEVEL = "exploration"
 RULE = (
-    "Hypothesis records: tool in {validate, write, eject, compile_grammar, cli validate, cli write} x content kind (14) x schema "
+    "Hypothesis records: tool in {validate, write, eject, compile_grammar, cli validate, cli write} x content kind (16) x schema "
     "argument (22: packaged META/SKILL/DEBATE_TRANSCRIPT/TEST_HOLOGRAPHIC, planted GEN_A/GEN_W, planted unparseable BROKEN and "
     "field-less EMPTY_S, unknown, lower-case, path-like, newline-suffixed, empty, latest with/without cache, 6 frozen@sha256 "
     "variants) x profile (7) x schema-file history (none / deleted / broken / made stricter after a successful use in the same process) x flags (fix, debug_grammar, grammar_hint, diff_only, compact, lenient, corrections_only, "
@@ -57,7 +57,7 @@ SCHEMAS = ["META", "SKILL", "DEBATE_TRANSCRIPT", "TEST_HOLOGRAPHIC", "GEN_A", "G
            "specs/schemas/gen_a", "META\n", "", "GEN_A.oct.md", "latest", "frozen@sha256:" + D_GOOD, "frozen@sha256:" + D_GOOD.upper(),
            "frozen@sha256:" + D_OTHER, "frozen@sha256:" + D_GOOD[:16], "frozen@sha256:../../" + D_GOOD[:58], "frozen@md5:" + D_GOOD[:32]]
 PROFILES = [None, "STRICT", "STANDARD", "LENIENT", "ULTRA", "strict", "FOO", ""]
-CONTENT_KINDS = ["valid", "valid_lenient_spelling", "missing_version", "bad_status", "case_status", "unknown_meta_field", "no_meta",
+CONTENT_KINDS = ["valid", "instance_quoted_number", "instance_type_violation", "valid_lenient_spelling", "missing_version", "bad_status", "case_status", "unknown_meta_field", "no_meta",
                  "instance_missing_req", "instance_unknown", "instance_bad_enum", "unparseable", "untokenisable", "empty", "prose"]
 
 
@@ -84,6 +84,10 @@ def content_for(kind: str, schema: str) -> str:
         return head + f"{inst}:\n  STATUS::DRAFT\n" + tail
     if kind == "instance_unknown":
         return head + body + "  SURPRISE::1\n" + tail
+    if kind == "instance_quoted_number":  # repairable under fix/lenient, a TYPE violation otherwise
+        return head + body.replace("COUNT::5", 'COUNT::"5"') + tail
+    if kind == "instance_type_violation":  # the ONLY violation is one of TYPE
+        return head + body.replace("COUNT::5", "COUNT::five") + tail
     if kind == "instance_bad_enum":
         return head + body.replace("STATUS::ACTIVE", "STATUS::NOPE").replace("COUNT::5", 'COUNT::"five"') + tail
     if kind == "unparseable":
@@ -139,7 +143,7 @@ def has_blocking_error(case) -> bool:
     if sch in ("GEN_A", "GEN_W"):
         if mutation == "stricter" and not parse_fails(kind) and kind not in ("empty", "prose"):
             return True  # EXTRA_REQ is required and no generated content carries it
-        if kind in ("instance_missing_req", "instance_bad_enum"):
+        if kind in ("instance_missing_req", "instance_bad_enum", "instance_type_violation", "instance_quoted_number"):
             return True
         if kind == "instance_unknown" and sch == "GEN_A":
             return True
